@@ -108,9 +108,9 @@ def run_valmon(prop, tier, t0):
 ARCHMON = {
     'C03': {'quick': {'cases': 2400, 'budget_s': 55}, 'thorough': {'cases': 60000, 'budget_s': 700},
             'floor': 300, 'req': ['c03_ops', 'c03_content_checks', 'c03_failed_store_checks', 'c03_copy_checks',
-                                  'c03_eq_checks', 'c03_isolation_checks', 'c03_cached_sync_checks']},
+                                  'c03_eq_checks', 'c03_isolation_checks', 'c03_cached_sync_checks', 'c03_second_handle_checks']},
     'C08': {'quick': {'cases': 4000, 'budget_s': 45}, 'thorough': {'cases': 100000, 'budget_s': 600},
-            'floor': 300, 'req': ['c08_steps', 'c08_parked_checks', 'c08_toggle_on', 'c08_sync_ops_while_off', 'c08_sync_ops_with_conflicting_values']},
+            'floor': 300, 'req': ['c08_steps', 'c08_parked_checks', 'c08_toggle_on', 'c08_sync_ops_while_off', 'c08_sync_ops_with_conflicting_values', 'c08_second_handle_checks']},
 }
 
 
